@@ -38,7 +38,7 @@ FLOORS = {'alias_only_pair': 0.03, 'mixed_key_dict': 0.04, 'explicit_default': 0
 
 PRESERVING = ['deepcopy', 'pickle', 'rebuild', 'explicit_default', 'dict_reorder', 'history',
               'intern_redirect']
-BREAKING = ['leaf_change', 'fn_swap', 'bt_swap', 'alias_redirect', 'merge']
+BREAKING = ['leaf_change', 'fn_swap', 'bt_swap', 'alias_redirect', 'merge', 'alias_retarget']
 _SWAP = {'things:Base': 'things:Other', 'things:Other': 'things:Base', 'things:f2': 'things:Base',
          'things:Mid': 'things:Other', 'things:LeafCls': 'things:Other', 'things:h1': None,
          'things:po2': None}
@@ -47,16 +47,41 @@ _DEFAULTS = {'things:f2': {'y': 'd_y', 'x': None, 'child': None},
              'things:Other': {'y': 'd_y', 'x': None, 'child': None},
              'things:Mid': {'y': 'd_y', 'child': None},
              'things:LeafCls': {'y': 'd_y', 'extra': 'd_extra', 'child': None},
-             'things:h1': {'b': None, 'c': None, 'd': None, 'e': None}}
+             'things:h1': {'b': None, 'c': None, 'd': None, 'e': None},
+             'things:kwdef': {'scale': 1.0, 'child': None}}
+
+
+_OTHER_PARAMS = {'things:h1': ['b', 'c', 'd', 'e'], 'things:kwdef': ['scale', 'child']}
+
+
+def _free_param(root):
+  names = _OTHER_PARAMS.get(root['fn']['name'], ['y', 'child'])
+  for n in reversed(names):
+    if n not in root['kw']:
+      return n
+  return names[-1]
 
 
 @st.composite
 def strategy_(draw, tier):
+  if draw(st.floats(0, 1)) < 0.08:
+    # aliases inside a nested Buildable whose targets are first visited through earlier
+    # arguments of the root
+    mk = lambda fn, **kw: {'k': 'B', 'bt': 'Config', 'fn': {'kind': 'sym', 'name': fn}, 'pos': [], 'kw': kw, 'edits': []}
+    inner = draw(st.sampled_from(['things:f2', 'things:Base']))
+    nodes = [mk(inner, x={'leaf': draw(leaves.leaf('plain'))}), {'k': 'copyof', 'of': 0}]
+    slots = draw(st.permutations(['b', 'c', 'd', 'e']))
+    nodes.append(mk('things:h1', a={'leaf': 'pair'}, **{slots[0]: 0, slots[1]: draw(st.sampled_from([0, 1]))}))
+    rs = draw(st.permutations(['b', 'c', 'd']))
+    nodes.append(mk('things:h1', a={'leaf': 'root'}, **{rs[0]: 0, rs[1]: 1, 'e': 2}))
+    return {'recipe': {'nodes': nodes, 'root': 3},
+            'r1': [draw(st.sampled_from(['alias_retarget', 'alias_retarget', 'alias_redirect', 'merge'])), draw(st.integers(0, 50))],
+            'r2': [draw(st.sampled_from(PRESERVING)), draw(st.integers(0, 50))]}
   recipe = draw(dags.dag(
       max_nodes=10, min_nodes=3, leaf_profile='nan_free', bts=('Config', 'Config', 'Partial'),
       kinds=['B', 'B', 'B', 'list', 'tuple', 'dict', 'mdict', 'mdict', 'nt', 'ltuple', 'ntuple'],
       p_alias=0.75,
-      fns=['things:f2', 'things:h1', 'things:Base', 'things:Other', 'things:LeafCls'],
+      fns=['things:f2', 'things:h1', 'things:Base', 'things:Other', 'things:LeafCls', 'things:kwdef'],
       root_kinds=['B'], uid=draw(st.booleans())))
   # occasionally a node over the positional-only-defaults callable
   if draw(st.floats(0, 1)) < 0.25:
@@ -67,8 +92,7 @@ def strategy_(draw, tier):
           'kw': {}, 'edits': []}
     recipe['nodes'].insert(i, po)
     recipe['nodes'][i + 1] = root
-    root['kw']['child' if 'child' not in root['kw'] and root['fn']['name'] != 'things:h1' else
-               ('e' if root['fn']['name'] == 'things:h1' else 'y')] = i
+    root['kw'][_free_param(root)] = i
     recipe['root'] = i + 1
   if draw(st.floats(0, 1)) < 0.3:
     # nested constant tuple, referenced from two places (its sharing must be ignored by ==)
@@ -77,11 +101,11 @@ def strategy_(draw, tier):
     lt = {'k': 'tuple', 'items': [{'leaf': 0}, {'leaf': draw(st.integers(0, 3))}]}
     nt = {'k': 'tuple', 'items': [i, {'leaf': 1}, i] if draw(st.booleans()) else [i, i]}
     recipe['nodes'] += [lt, nt, root]
-    names = ['b', 'c', 'd', 'e'] if root['fn']['name'] == 'things:h1' else ['y', 'child']
+    names = _OTHER_PARAMS.get(root['fn']['name'], ['y', 'child'])
     for nm in names[-2:]:
       root['kw'][nm] = i + 1
     recipe['root'] = i + 2
-  weighted = PRESERVING + BREAKING + ['alias_redirect', 'alias_redirect', 'alias_redirect', 'merge',
+  weighted = PRESERVING + BREAKING + ['alias_redirect', 'alias_redirect', 'alias_redirect', 'merge', 'alias_retarget', 'alias_retarget',
                                       'dict_reorder', 'explicit_default', 'intern_redirect']
   r1 = [draw(st.sampled_from(weighted)), draw(st.integers(0, 50))]
   r2 = [draw(st.sampled_from(weighted + PRESERVING)), draw(st.integers(0, 50))]
@@ -196,7 +220,7 @@ def rewrite(recipe, kind, sel):
     if not cands:
       return recipe, None, 'rebuild'
     nd = nodes[cands[sel % len(cands)]]
-    p = 'y' if nd['fn']['name'] != 'things:h1' else 'b'
+    p = _OTHER_PARAMS.get(nd['fn']['name'], ['y'])[0]
     final = nd['kw'].get(p)
     for e in nd.get('edits', []):
       if e[0] == 'setattr' and e[1] == p:
@@ -259,6 +283,28 @@ def rewrite(recipe, kind, sel):
     i2 = i + 1 if i > t else i
     _set_ref(r2['nodes'][i2], key, j, newidx)
     return r2, None, kind
+  if kind == 'alias_retarget':
+    # redirect one reference from node t to a *different existing* node that is an equal copy
+    def base_idx(i):
+      while nodes[i]['k'] == 'copyof':
+        i = nodes[i]['of']
+      return i
+    groups = {}
+    for i in reach:
+      if _base(r, i)['k'] in ('B', 'list', 'dict'):
+        groups.setdefault(base_idx(i), []).append(i)
+    cands = []
+    for i in reach:
+      for key, j, ref in _refs_of(nodes[i]):
+        if isinstance(ref, int) and _base(r, ref)['k'] in ('B', 'list', 'dict'):
+          others = [t2 for t2 in groups.get(base_idx(ref), []) if t2 != ref and t2 < i]
+          for t2 in others:
+            cands.append((i, key, j, t2))
+    if not cands:
+      return recipe, None, 'rebuild'
+    i, key, j, t2 = cands[sel % len(cands)]
+    _set_ref(nodes[i], key, j, t2)
+    return r, None, kind
   if kind == 'merge':
     cands = [i for i in reach if nodes[i]['k'] == 'copyof' and nodes[i]['of'] in reach]
     if not cands:
@@ -390,7 +436,7 @@ def check(case):
   out.cls('r1_' + k1, 'r2_' + k2)
   if mixed:
     out.cls('mixed_key_dict')
-  if k1 in ('alias_redirect', 'merge') or k2 in ('alias_redirect', 'merge'):
+  if k1 in ('alias_redirect', 'merge', 'alias_retarget') or k2 in ('alias_redirect', 'merge', 'alias_retarget'):
     out.cls('alias_only_pair')
   if 'explicit_default' in (k1, k2):
     out.cls('explicit_default')
